@@ -1925,6 +1925,7 @@ class Unit:
                     # dropped; what the helper's ghost code used to establish is then missing, so dependent obligations fail rather than pass
                     self.dropped.append('annotation %r: the helper no longer exists in the extracted code' % (key,))
                     if key[0] == 'loop': self.dropped_loops = getattr(self, 'dropped_loops', []) + [(key[1], key[2])]
+                    else: self.dropped_helper_ghosts = getattr(self, 'dropped_helper_ghosts', []) + [key[1]]
                     continue
                 if key[0] == 'loop' and self.emitted_funcs.get(key[1]):
                     # the function is there but has fewer loops than the spec annotates: a loop contract is only a proof hint, so it is
